@@ -50,7 +50,8 @@ impl ReservedNames {
         let mut unused_name = name.clone();
         let mut i = 0;
 
-        while self.reserved_names.contains(&unused_name) {
+        // a single underscore is not a valid identifier
+        while unused_name == "_" || self.reserved_names.contains(&unused_name) {
             i += 1;
             unused_name = format!("{}_{}", name, i);
         }
